@@ -12,7 +12,7 @@ use proptest::prelude::*;
 use serde::{Deserialize, Serialize};
 use serde_json::json;
 
-pub const RULE: &str = "generated: a reference-signed request (both carriers, all options, tokens, requirement sets) followed by exactly one edit from a catalogue (method; path/query/header/body byte, insertion, removal, duplication, value swap, letter case; timestamp +-1s; each credential component; provider key (secret, date, region, service); server region/service; signature: one hex digit at each position, truncated, extended, empty, zero, signature of another request, random; blind unsigned requests). Oracle: crate Ok => the model (independent signer/verifier) says the presented signature is the HMAC of the request as received. Non-trivial: the edited request passes the model's rules 1-13 and is refused by the signature comparison (or by the scope rule); distinct by digest of (string-to-sign, key query, presented signature).";
+pub const RULE: &str = "generated: a reference-signed request (both carriers, all options, tokens, requirement sets) followed by exactly one edit from a catalogue (method; path/query/header/body byte, insertion, removal, duplication, value swap, letter case; timestamp +-1s; each credential component; provider key (secret, date, region, service); server region/service; signature: one hex digit at each position, truncated, extended, empty, zero, signature of another request, random; blind unsigned requests). In a second pass the unedited request is validated first and its edited twin directly afterwards on the same thread (state remembered between validations must not help a forgery). Oracle: crate Ok => the model (independent signer/verifier) says the presented signature is the HMAC of the request as received. Non-trivial: the edited request passes the model's rules 1-13 and is refused by the signature comparison (or by the scope rule); distinct by digest of (string-to-sign, key query, presented signature).";
 
 #[derive(Clone, Debug, Serialize, Deserialize)]
 pub enum Mutation {
